@@ -146,6 +146,17 @@ CHECKS["C04"] = dict(
           "normalize_ev (with vol**(2/3) certified by cubing in Coq) are tied by correspondence."),
     design="6/C04", technique="Coq proof over R (nsatz/field) + metamorphic oracles + vm_compute correspondence")
 
+CHECKS["C14"] = dict(
+    text=("Theorems about the token-level file model of write_vtk/read_vtk (triangle and tetra), for every vertex list, every "
+          "non-empty connectivity list, every rounding function and scalar type: read(write(v, t)) = (round32 v, t) -- identical "
+          "connectivity values, order and winding; and EVERY proper line-prefix of a written file (header, vertex section, between "
+          "sections, element section) yields no mesh. Number<->text conversion (Python str / C strtod) is abstracted and covered by "
+          "correspondence: the model writer must produce the token stream of the real file and the model readers (VTK, OFF) must return "
+          "what the real readers return on written, foreign and every line-truncated file. FreeSurfer binary surfaces, Gmsh, triangle "
+          "strips, write_ev/read_ev (bit-exact, all shapes, edit histories) and write_vfunc/read_vfunc are decided by round-trip oracles on "
+          "the implementation only (partial: no model of those formats)."),
+    design="6/C14", technique="Coq proof over token-stream codec model (list induction) + vm_compute correspondence + round-trip oracles")
+
 NOT_YET = {}
 
 
